@@ -25,6 +25,7 @@ CONFIGS = [(p, c) for p in GAUSS_PRED for c in GAUSS_CORR] + PART
 NAMES = ["prediction", "state", "exogenous", "correction", "all"]
 # DrawParticles(state_model, exogenous_model): a configuration *with* an exogenous model (the caller supplied one)
 DRAW2 = ("draw2", "boot")
+HANDOVER_KEY = "gaussian-correction-move:skip-flag-lost"      # fixed by 88cf1f5
 DRAW2_KEY = "drawparticles-two-arg-ctor:exogenous-model-never-attached"
 UNKNOWN = ["~", "Prediction", "predict", "states", "stat", "exo", "ALL", "al", "corrections", "predictionstate", "none"]
 
@@ -91,13 +92,20 @@ def labset(lab):
 
 
 def parse_op(tok):
-    if tok in ("p", "c"):
+    if tok in ("p", "c", "H"):
         return (tok,)
     lvl, name, on = tok.split(":")
     return (lvl, "" if name == "~" else name, on == "1")
 
 
 def check_line(line, hout, dout, stats, notes):
+    try:
+        return check_line_(line, hout, dout, stats, notes)
+    except Exception as e:      # malformed harness output: a violation with the input as replay, never a crash of the check
+        return [("malformed-output", "the harness output could not be interpreted (%s): %s" % (type(e).__name__, hout[:120]))]
+
+
+def check_line_(line, hout, dout, stats, notes):
     """returns list of (key, what) property violations; `notes` gets model/implementation differences
     on observables the property does not constrain."""
     t = line.split()
@@ -174,6 +182,17 @@ def check_line(line, hout, dout, stats, notes):
             behaviour(None, parts[1], None, where, i)
             continue
         r, fl, pl, cl = parts
+        if op is not None and op[0] == "H":
+            # hand-over: steps move-constructed into new objects held by a new filter; must behave as the original
+            stats["handovers"] = stats.get("handovers", 0) + 1
+            nb = len(bad)
+            if fl != spec.flags():
+                bad.append(("handover-changes-flags", "%s: after the hand-over the reported flags are %s, the commands given imply %s" % (where, fl, spec.flags())))
+            behaviour(pl, cl, mparts[2], where, i)
+            if spec.corr and "id" not in labset(cl) and ck in ("kfc", "ukfc"):
+                bad[nb:] = [(HANDOVER_KEY, "%s: the correction was skipped before the hand-over; the move-constructed %s corrects again (skip flag lost)" % (where, ck))]
+            prev = (fl, pl, cl)
+            continue
         if op is not None:
             lvl, name, on = op
             want = spec.apply(lvl, name, on)
@@ -237,6 +256,9 @@ def exhaustive_cases(seed):
                     n = 1 + (idx % 4)
                     k = 1 + ((idx // 4) % 4)
                     ops = prefix_for(exo, *st) + [cmd, "p", "c", "F:all:0", "p", "c"]
+                    if idx % 3 == 0:
+                        # the same with hand-overs in between (commands that net to nothing must still net to nothing)
+                        ops = prefix_for(exo, *st) + ["H", cmd, "H", "p", "c", "F:all:0", "H", "p", "c"]
                     cases.append(("skip %s %d %s %d %d %d %s" % (pk, exo, ck, (seed * 7919 + idx) % 100000, n, k, " ".join(ops)),
                                   {"style": "exhaustive", "pk": pk, "exo": exo}))
             # every raw flag combination (state-model-level commands bypass the bookkeeping): notes only
@@ -260,7 +282,9 @@ def random_cases(g, count, maxlen):
         ops = []
         for _ in range(L):
             x = r.random()
-            if x < 0.25:
+            if x < 0.06:
+                ops.append("H")
+            elif x < 0.25:
                 ops.append("p")
             elif x < 0.45:
                 ops.append("c")
@@ -331,7 +355,7 @@ def run(ctx):
         "states": len(stats.get("states", ())), "transitions": stats.get("cmds", 0),
         "style_histogram": hist,
         "traces_validated_against_impl": len(cases),
-        "commands_checked": stats.get("cmds", 0), "step_ops_checked": stats.get("step_ops", 0),
+        "commands_checked": stats.get("cmds", 0), "handovers_checked": stats.get("handovers", 0), "step_ops_checked": stats.get("step_ops", 0),
         "histories_identical_to_model": stats.get("identical", 0),
         "model_branch_hits": dict(sorted(branches.items())),
         "distinct_model_states_visited": len(stats.get("states", ())),
